@@ -207,6 +207,15 @@ def census(tree, decorators=True):
                     for e in st.bases + [k.value for k in st.keywords] + st.decorator_list:
                         _scan(e, c, False, _BUILTINS)
                     scope(st.body, prefix + st.name, prefix + st.name + ".")
+                    # the attributes the methods store on their instance: a NEW one is state between calls (a memo, a cache, a flag) that
+                    # no rule written against the reference class knows about - whether it is kept up to date cannot be decided
+                    cc = out.setdefault(prefix + st.name, {})
+                    for m in st.body:
+                        if isinstance(m, (ast.FunctionDef, ast.AsyncFunctionDef)) and m.args.args:
+                            me = m.args.args[0].arg
+                            for x in ast.walk(m):
+                                if isinstance(x, ast.Attribute) and isinstance(x.ctx, ast.Store) and isinstance(x.value, ast.Name) and x.value.id == me:
+                                    cc["selfattr:" + x.attr] = 1
                 else:
                     # one statement of the scope: its own expressions, and the defs / classes in its blocks
                     inner = []
